@@ -58,7 +58,7 @@ def pytest_sessionfinish(session, exitstatus):
     if not out:
         return
     d = _sink.dump()
-    d.update({"outcomes": _outcomes, "exitstatus": int(exitstatus), "monitor": _state["monitor"], "wrapped": _state["wrapped"]})
+    d.update({"outcomes": _outcomes, "exitstatus": int(exitstatus), "monitor": _state["monitor"], "wrapped": _state["wrapped"], "rootdir": str(session.config.rootpath)})
     tmp = out + ".tmp"
     with open(tmp, "w") as fh:
         json.dump(d, fh, default=repr)
